@@ -60,10 +60,17 @@ def run_path(hname, params, prefix, validate=False):
                     raise Unsupported('a symbolic value reached a place where the encoder needs a concrete one: ' + where)
                 raise
         except implmod.ImplPanic as e:
+            # every property presupposes that the call returns: a panic on a feasible path violates it (and C01 in particular)
             rec['status'] = 'panic'
             rec['msg'] = str(e)[:200]
             try:
-                rec['values'] = I.model_values()
+                vals = I.model_values()
+                rec['values'] = vals
+                if _G['native'] is not None:
+                    st, msg, role = native_replay(hname, params, vals, _G['native'])
+                    if st == 'panic':
+                        rec.update(status='known' if 'panic' in _G.get('known_roles', ()) else 'violation', msg='the implementation panics: ' + str(e)[:160],
+                                   role='panic', native=st, native_msg=msg)
             except Infeasible:
                 rec['status'] = 'infeasible'
     except Violation as v:
